@@ -34,6 +34,8 @@ SPECIAL = [
     "one/nocache/add-1", "vfirst", "one/coll-~X~/one~E-~X~/one~E", "hello/x.TXT", "hello/a.tar.gz", "one/d.", "one/.hidden", "x.json",
     # failing
     "one/fail", "one/fail/add-1", "one/fail/add-1/add-2", "nosuch", "one/add-x", "one/req", "one/add-1-2/ident", "one/add-~X~/one/fail~E", "one/add-~X~fail~E/ident",
+    # a first command (takes no input) after the first position: capitalised attributes collected so far persist through it
+    "one/cap/hello", "one/cap/hello/low", "hello/cap/one/add-1", "one/cap/cap2/one",
     # long pipelines: a failure after more steps than the child log keeps entries, and one far before the end
     "one/add-1/add-1/add-1/add-1/add-1/add-1/fail/add-1", "one/add-1/add-1/add-1/add-1/add-1/add-1/add-1/add-1/add-1/fail",
     "one/fail/add-1/add-1/add-1/add-1/add-1/add-1/add-1/add-1",
